@@ -17,7 +17,7 @@ PROPERTY = "C14"
 MODEL_TARGETS = ["Model/C14Dispatch.vo"]
 RULE = ("functions of 1-3 blocks (cf.br / cf.cond_br), bodies of 1-7 items nested to depth 3 in scf.for / scf.if "
         "(with and without else); items: memref.copy, linalg.generic, xDMA streaming region with an extension "
-        "kernel (DM, has a body), snax_alu streaming region and xDMA region with a non-extension kernel "
+        "kernel (DM, has a body), snax_alu streaming region, xDMA regions with a non-extension kernel or with an extension kernel class on undeclared operand types "
         "(compute), constants / barriers / calls (all cores); nb_cores in 2..4. Non-trivial = at least one "
         "dispatchable op; distinct = distinct (structure, nb_cores)")
 TRUSTED_BASE = [
@@ -56,7 +56,7 @@ class Gen:
 
     def item(self, depth, weights=None):
         r = self.rng
-        kinds = ["copy", "copy", "generic", "generic", "sr_dm", "sr_alu", "sr_xmul", "const", "sync", "call", "for", "if", "ifelse"]
+        kinds = ["copy", "copy", "generic", "generic", "sr_dm", "sr_alu", "sr_xmul", "sr_x64", "const", "sync", "call", "for", "if", "ifelse"]
         k = r.choice(kinds)
         if depth >= 3 and k in ("for", "if", "ifelse"):
             k = r.choice(["copy", "generic", "const"])
@@ -76,6 +76,11 @@ class Gen:
         if k == "sr_xmul":
             self.ndisp += 1
             return mc_ir.t_stream("snax_xdma", "mul", self.mem(), self.mem(), self.mem(), u).split("\n")
+        if k == "sr_x64":
+            # the op class of an xDMA extension kernel (kernel.add) on operand types no extension declares:
+            # not data movement by the rules' own exact test, hence accelerator/compute work
+            self.ndisp += 1
+            return mc_ir.t_stream("snax_xdma", "add", "%e", "%f", "%e", u, el="i64").split("\n")
         if k == "const":
             return [f"%k{u} = arith.constant {r.randrange(100)} : index"]
         if k == "sync":
@@ -104,7 +109,7 @@ class Gen:
         r = self.rng
         nblocks = r.choice([1, 1, 1, 2, 3])
         lines = ["func.func private @ext() -> ()",
-                 "func.func @f(%a : memref<64xi32>, %b : memref<64xi32>, %c : memref<64xi32>, %d : memref<64xi32>, %n : index, %cond : i1) {",
+                 "func.func @f(%a : memref<64xi32>, %b : memref<64xi32>, %c : memref<64xi32>, %d : memref<64xi32>, %n : index, %cond : i1, %e : memref<64xi64>, %f : memref<64xi64>) {",
                  "  %c0 = arith.constant 0 : index", "  %c1 = arith.constant 1 : index"]
         for bi in range(nblocks):
             if bi > 0:
@@ -402,6 +407,8 @@ def search(ctx, deep=False):
     rng = ctx.rng
     n = ctx.n(120, 800) * (3 if deep else 1)
     items = list(CORPUS)
+    items.append(("func.func @f(%a : memref<64xi32>, %b : memref<64xi32>, %c : memref<64xi32>, %d : memref<64xi32>, %n : index, %cond : i1, %e : memref<64xi64>, %f : memref<64xi64>) {\n"
+                  + mc_ir.t_stream("snax_xdma", "add", "%e", "%f", "%e", 1, el="i64") + "\n  func.return\n}", 2))
     # xDMA region with a kernel no extension provides (was: ran on all cores)
     items.append(("func.func @f(%a : memref<64xi32>, %b : memref<64xi32>, %c : memref<64xi32>, %d : memref<64xi32>, %n : index, %cond : i1) {\n"
                   + mc_ir.t_stream("snax_xdma", "mul", "%a", "%b", "%c", 1) + "\n  func.return\n}", 3))
